@@ -29,5 +29,5 @@ env = dict(os.environ, VERIF_OVERLAY=ov)
 for i in ids:
     p = subprocess.run(['/verif/check', i, '--tier', tier], env=env, capture_output=True, text=True)
     lines = [l for l in p.stdout.splitlines() if l.startswith(('VIOLATION', 'check=', 'BUILD-FAILED', 'HARNESS')) or 'signature=' in l]
-    print(f'== {i} exit={p.returncode}'); print('\n'.join(l[:260] for l in lines[:12]))
+    print(f'== {i} exit={p.returncode}'); print('\n'.join(l[:260] for l in lines[:60]))
 shutil.rmtree(tmp)
